@@ -661,7 +661,7 @@ fn path_digest(p: &[PathElement]) -> u64 {
 
 /// Synthetic fonts per tier (dealt to shards one font at a time).
 const SYNTH_FONTS_QUICK: u32 = 4000;
-const SYNTH_FONTS_THOROUGH: u32 = 20000;
+const SYNTH_FONTS_THOROUGH: u32 = 12000;
 
 /// A synthetic font written to a private temporary file (fauntlet maps files).
 struct TempFont {
